@@ -409,6 +409,8 @@ def rule_atmost_adaptor(ck, u, eng, fname):
             facts = facts + [lin.le(L(h_r), L(n_))]     # inductive: 0 <= n; a step needs moved < n and moves at most what it asked for (1)
         else:
             return ck.broken('C17.e', fname, where, 'cannot identify the variable that counts the octets (neither a countdown from n nor a count from 0)')
+        if len(rem) != 1 and not eng.feasible(p.cond_terms(), [lin.le(L(h_r), L(n_))]):
+            continue                                    # excluded by the inductive bound (moved <= n)
         tc = transfer_calls(p)
         if not tc:
             if p.end == 'return':
@@ -585,7 +587,13 @@ def rule_f(ck, u, ub, so, P, engf):
             facts = engf.path_facts(p)
             if len(down) != 1:
                 # index loops: i <= n is inductive (0 <= n; i < n gives i + 1 <= n) - proved here before it is used
-                ind = all(engf.entails(engf.path_facts(q) + [lin.le(L(q.loops[-1][1][ck_][0]), L(n_))],
+                def atmost(q):
+                    # an at-most step moves at most what it was asked for (C17.e; drivers return at most the count they get)
+                    sq = [e for e in q.calls() if e.name in step]
+                    if step_bound_arg is None or len(sq) != 1:
+                        return []
+                    return [lin.le(L(sq[0].result), L(strip_cast(sq[0].args[step_bound_arg])))]
+                ind = all(engf.entails(engf.path_facts(q) + [lin.le(L(q.loops[-1][1][ck_][0]), L(n_))] + atmost(q),
                                        L(q.mem.get(ck_, q.loops[-1][1][ck_][0])) - L(n_))
                           for q in P[fn] if q.end == 'loopback' and q.loops and ck_ in q.loops[-1][1])
                 if ind:
